@@ -9,10 +9,26 @@ References (nothing below calls the code under test to produce an expected value
   * Lagrange weights by the plain product formula, finite-difference weights by an exact rational solve of the
     moment system, equilibrium distribution from its closed form, characteristics by our own vectorised
     Heun / fixed-point trapezoid.
-Tolerances are rounding-only: every comparison uses  tol = RTOL * scale  with RTOL = 1e-9 and `scale` the natural
-magnitude of the compared quantity (max|f|, or max|phi|*sum|c_k|*b_z/dz for the gradient); the spline collocation
-systems used here have condition numbers < 1e3 and all operations are O(10) flops deep, so rounding stays below 1e-12*scale,
-while any indexing / sign / weight slip changes the result by O(1e-3..1)*scale.
+Tolerances are rounding-only: every comparison uses  tol = rtol * scale  with `scale` the natural magnitude of the compared
+quantity (1+max|f|, or (1+max|phi|)*sum|c_k|*b_z/dz for the gradient).  rtol = 1e-9 against the references, 1e-11..1e-13 for the
+algebraic identities (constants, linearity, shifts, exact circular shift), 1e-10 relative for closed-form boundary values; for the
+implicit scheme 3*tol_iter*max|grad spline| is added.  Observed worst error/tolerance on the unchanged tree: <= 1.2e-2 (C12),
+<= 6e-4 elsewhere, while every seeded slip (sign, index, weight, factor, wiring) is off by 1e-6..1 * scale.
+
+What is covered (grid sizes 6..20 per direction, spline degrees 1..5 general + uniform-cubic path, non-uniform breaks):
+  C10  step() for every (rIdx,cIdx) of tables built from Layouts of process grids up to 3x2 (any rank), displacements from 1e-15 cells to
+       2.5 turns, both signs of v and dt, v=0, iota in {0,.8,-1.3,2}, R0 in {1.7,5,12,239.8}, z grids with offset; exact whole-cell
+       shifts (dyadic data) incl. |shift| > nz, almost-whole-cell shifts; constants, linearity, z-shift commutation, consecutive steps,
+       two operators on the same bases; gridStep on simulated process grids up to 3x2 / 4x1 / 1x4.
+  C11  step() for the three edge modes, shifts 0, sub-cell, cells, +-0.999/1.0 domain widths, up to +-5.2 widths, c=0 and dt=0, five
+       consecutive steps per object, random model constants; gridStep + gridStepKeepGradient on process grids up to 3x2 / 2x3.
+  C12  explicit and implicit step vs. own characteristics (+ boundary values), nulEdge both ways, dt of both signs, sub-cell to 3 cells
+       (explicit) / contractive regime (implicit), B0 in {.5,1,2}, radial domains [.1,14.5],[1,5],[2,3]; phi=const, phi=omega r^2/2 (also
+       whole-cell rotations and more than one turn); explicit-vs-implicit order; termination (also one non-contractive case, see the
+       final report: the unchanged tree does not terminate there); gridStep/gridStep_SplinesUnchanged on process grids up to 3x2.
+  C13  orders 2-6 and the default, nz from order+1, every local radial index of Layouts (3-D and 4-D) for 1..4 processes, iota zero/non-zero;
+       linearity, constants, z shifts, two objects on one basis, field-aligned functions (commensurate: rounding; otherwise bounded by
+       the measured theta-interpolation error), observed convergence order.
 """
 import json
 import math
